@@ -15,7 +15,11 @@ import (
 	"github.com/oauth2-proxy/oauth2-proxy/v7/verifx/sched"
 )
 
-func live() bool { return sched.Active() != nil && sched.Controlled() }
+// Enabled switches the access hooks on (C20 does; other scheduler explorations leave the
+// instrumented packages unscheduled so that they do not add irrelevant scheduling points).
+var Enabled bool
+
+func live() bool { return Enabled && sched.Active() != nil && sched.Controlled() }
 
 // F records an access to x.field, where x is a pointer to a struct.
 func F(x any, field string, write bool, pos string) {
@@ -69,7 +73,7 @@ func M(m any, write bool, pos string) {
 // enabled thread), and what they read is folded into the thread's observation hash when the
 // thread is resumed, i.e. at the moment the statement really executes.
 func P(pos string) {
-	if sched.Active() == nil {
+	if !Enabled || sched.Active() == nil {
 		return
 	}
 	sched.FlushAccesses(pos)
